@@ -4,6 +4,7 @@ import (
 	"fmt"
 	"go/token"
 	"go/types"
+	"strconv"
 	"strings"
 
 	"golang.org/x/tools/go/ssa"
@@ -321,4 +322,184 @@ func (p *Prog) indexedTableFunc(f *ssa.Function, keyT, elemT string) (constTable
 		}
 	}
 	return constTable{Rows: rows, Where: "package-level table " + table.Name() + " read through " + FuncName(f), Fn: f, Pos: f.Pos()}, true
+}
+
+// ---------------------------------------------------------------------------
+// String-keyed constant tables and the tests made against them.
+
+type strTable struct {
+	Name   string
+	Rows   map[string]string // key → value ("true" for sets)
+	Pos    token.Pos
+	Global *ssa.Global   // a package-level map initialised with a literal
+	Fn     *ssa.Function // or a function of one string parameter written as a switch
+}
+
+// tableTest: one use of a string table: a lookup `v, ok := T[k]` / `T[k]` or a call `f(k)`.
+type tableTest struct {
+	Table  *strTable
+	Key    ssa.Value
+	In     ssa.Instruction
+	OkKey  string // key whose "== true" / "== false" fact states membership
+	ValKey string // key of the looked-up value ("" for pure membership tests)
+}
+
+func (p *Prog) strTableOfGlobal(g *ssa.Global) *strTable {
+	if p.strTables == nil {
+		p.strTables = map[interface{}]*strTable{}
+	}
+	if t, ok := p.strTables[g]; ok {
+		return t
+	}
+	var t *strTable
+	if mt, ok := deref(g.Type()).Underlying().(*types.Map); ok {
+		if kb, ok := mt.Key().Underlying().(*types.Basic); ok && kb.Info()&types.IsString != 0 {
+			if rows, ok := globalMapLiteral(p, g); ok {
+				t = &strTable{Name: g.Name(), Rows: rows, Pos: g.Pos(), Global: g}
+			}
+		}
+	}
+	p.strTables[g] = t
+	return t
+}
+
+// strTableOfFunc: f(k string) (string, bool) | bool | string whose every returning path that reports a hit
+// requires k to equal exactly one string constant and returns a constant.
+func (p *Prog) strTableOfFunc(f *ssa.Function) *strTable {
+	if p.strTables == nil {
+		p.strTables = map[interface{}]*strTable{}
+	}
+	if t, ok := p.strTables[f]; ok {
+		return t
+	}
+	p.strTables[f] = nil
+	sig := f.Signature
+	if sig.Recv() != nil || sig.Params().Len() != 1 || len(f.Blocks) == 0 || sig.Results().Len() < 1 || sig.Results().Len() > 2 {
+		return nil
+	}
+	if kb, ok := sig.Params().At(0).Type().Underlying().(*types.Basic); !ok || kb.Info()&types.IsString == 0 {
+		return nil
+	}
+	param := f.Params[0].Name()
+	ips, ok := p.ipaths(f)
+	if !ok || len(ips) == 0 {
+		return nil
+	}
+	rows := map[string]string{}
+	nres := sig.Results().Len()
+	boolOnly := nres == 1 && types.TypeString(sig.Results().At(0).Type(), nil) == "bool"
+	for _, ip := range ips {
+		if ip.Exit != "return" || len(ip.Ret) != nres {
+			return nil
+		}
+		hit := true
+		if nres == 2 {
+			switch ip.Ret[1] {
+			case "false":
+				hit = false
+			case "true":
+			default:
+				return nil
+			}
+		} else if boolOnly {
+			switch ip.Ret[0] {
+			case "false":
+				hit = false
+			case "true":
+			default:
+				return nil
+			}
+		}
+		var eq []string
+		for k := range ip.Rels {
+			if i := topLevelIndex(k, " == "); i >= 0 {
+				a, b := k[:i], k[i+4:]
+				if b == param && len(a) >= 2 && a[0] == '"' {
+					eq = append(eq, a)
+				}
+				if a == param && len(b) >= 2 && b[0] == '"' {
+					eq = append(eq, b)
+				}
+			}
+		}
+		if !hit {
+			if len(eq) > 0 && (nres == 2 || boolOnly) {
+				// a listed key that is answered "not present": fine, it is simply not a row
+			}
+			continue
+		}
+		if len(eq) != 1 {
+			if nres == 1 && !boolOnly {
+				continue // default result of a plain string function
+			}
+			return nil
+		}
+		key, err := strconv.Unquote(eq[0])
+		if err != nil {
+			return nil
+		}
+		val := "true"
+		if !boolOnly {
+			if !isLiteralKey(ip.Ret[0]) {
+				return nil
+			}
+			val = strings.Trim(ip.Ret[0], `"`)
+		}
+		if old, dup := rows[key]; dup && old != val {
+			return nil
+		}
+		rows[key] = val
+	}
+	if len(rows) < 2 {
+		return nil
+	}
+	t := &strTable{Name: f.Name(), Rows: rows, Pos: f.Pos(), Fn: f}
+	p.strTables[f] = t
+	return t
+}
+
+// tableTests: the tests of string tables made in f.
+func (p *Prog) tableTests(f *ssa.Function) []tableTest {
+	var out []tableTest
+	p.instrs(f, func(b *ssa.BasicBlock, i int, in ssa.Instruction) {
+		switch x := in.(type) {
+		case *ssa.Lookup:
+			if g := globalOfLoad(x.X); g != nil {
+				if t := p.strTableOfGlobal(g); t != nil {
+					tt := tableTest{Table: t, Key: x.Index, In: x}
+					if x.CommaOk {
+						tt.OkKey, tt.ValKey = shortKey(sk(x)+"#1"), shortKey(sk(x)+"#0")
+					} else {
+						tt.OkKey, tt.ValKey = sk(x), sk(x)
+					}
+					out = append(out, tt)
+				}
+			}
+		case *ssa.Call:
+			g := calleeOf(&x.Call)
+			if g == nil || g.Pkg == nil || !InRepo(g.Pkg.Pkg.Path()) || len(x.Call.Args) != 1 {
+				return
+			}
+			if t := p.strTableOfFunc(g); t != nil {
+				tt := tableTest{Table: t, Key: x.Call.Args[0], In: x}
+				switch g.Signature.Results().Len() {
+				case 2:
+					tt.OkKey, tt.ValKey = shortKey(sk(x)+"#1"), shortKey(sk(x)+"#0")
+				default:
+					tt.OkKey, tt.ValKey = sk(x), sk(x)
+				}
+				out = append(out, tt)
+			}
+		}
+	})
+	return out
+}
+
+// holds: the fact that the test answered val is among rs.
+func (tt tableTest) holds(rs relSet, val bool) bool {
+	v := "false"
+	if val {
+		v = "true"
+	}
+	return rs[tt.OkKey+" == "+v] || rs[v+" == "+tt.OkKey]
 }
